@@ -865,13 +865,23 @@ Proof.
   - rewrite iter_S. unfold mk_bvconcat at 1. cbn [eval map op_sem]. rewrite IH, Hf. cbn [bvop_sem].
     unfold rep_val. rewrite iter_S. f_equal. rewrite (Nat2Z.inj_succ (S n)). lia.
 Qed.
-(* accepted exactly for count >= 1, and then: count copies, width count * w *)
-Theorem repeat_sem I f count w x : eval I f = VBV w x ->
+(* acceptance domain: count >= 1 AND a bit-vector operand (also for count = 1, where no node is built) *)
+Theorem repeat_accept f count :
+  (exists t, mk_bvrepeat f count = Some t) <-> (1 <= count /\ exists w, tc f = Some (TBV w)).
+Proof.
+  unfold mk_bvrepeat. destruct (Z.ltb_spec count 1) as [Hc|Hc].
+  - split; [intros [t [=]] | intros [H _]; lia].
+  - destruct (tc f) as [[]|]; (split; [intros [t H]; try discriminate H | intros [_ [w' H]]; try discriminate H]).
+    + split; [lia | eexists; reflexivity].
+    + eexists; reflexivity.
+Qed.
+(* ... and then: count copies, width count * w *)
+Theorem repeat_sem I f count w x : tc f = Some (TBV w) -> eval I f = VBV w x ->
   ((exists t, mk_bvrepeat f count = Some t) <-> 1 <= count) /\
   (forall t, mk_bvrepeat f count = Some t ->
      eval I t = VBV (count * w) (rep_val w x (Z.to_nat (count - 1)))).
 Proof.
-  intros Hf. unfold mk_bvrepeat. destruct (Z.ltb_spec count 1) as [Hc|Hc].
+  intros Ht Hf. unfold mk_bvrepeat. rewrite Ht. destruct (Z.ltb_spec count 1) as [Hc|Hc].
   - split; [split; [intros [t [=]] | lia] | intros t [=]].
   - split; [split; [lia | eexists; reflexivity]|]. intros t [= <-].
     rewrite (repeat_iter I f w x Hf). f_equal. rewrite Nat2Z.inj_succ, Z2Nat.id by lia. lia.
@@ -895,8 +905,9 @@ Proof.
 Qed.
 Example repeat_example I : exists t, mk_bvrepeat (TBVC 2 2) 3 = Some t /\ eval I t = VBV 6 42.
 Proof. eexists. split; reflexivity. Qed.
-Example repeat_rejects : mk_bvrepeat (TBVC 2 2) 0 = None /\ mk_bvrepeat (TBVC 2 2) (-3) = None.
-Proof. split; reflexivity. Qed.
+Example repeat_rejects : mk_bvrepeat (TBVC 2 2) 0 = None /\ mk_bvrepeat (TBVC 2 2) (-3) = None /\
+  mk_bvrepeat (TIntC 5) 1 = None /\ mk_bvrepeat TTrue 1 = None.
+Proof. repeat split; reflexivity. Qed.
 
 (* ------------------------------------------------------------------------- infix notation *)
 (* (The next two lemmas are also proved in Substituter_proofs; restated here so that C06's closure
